@@ -181,13 +181,14 @@ Definition load_blocks (e : nexpr) (par : option (list item)) (s : ist) : outcom
   | None =>
       bind (eval_name e (vars s)) (fun n =>
       if memZ n (loaded s) then Err E_InvalidOperation  (* cycle in template inheritance *)
-      else match assoc n E with
+      else bind (find_tmpl E n) (fun o =>
+           match o with
            | None => Err E_TemplateNotFound
            | Some ptop =>
                Ok (Some ptop,
                    begin_capture None
                      (with_blocks (append_defs (blocks_of ptop) (blocks s)) (with_loaded (loaded s ++ [n]) s)))
-           end)
+           end))
   end.
 
 (* perform_include: the first template of the list that exists *)
@@ -195,10 +196,11 @@ Fixpoint first_existing (v : venv) (es : list nexpr) : outcome (option (list ite
   match es with
   | [] => Ok None
   | e :: r => bind (eval_name e v) (fun n =>
-              match assoc n E with
+              bind (find_tmpl E n) (fun o =>            (* only TemplateNotFound moves on to the next choice *)
+              match o with
               | Some top => Ok (Some top)
               | None => first_existing v r
-              end)
+              end))
   end.
 
 Definition perform_include (cur : option name) (es : list nexpr) (ign : bool) (s : ist) : outcome ist :=
@@ -369,9 +371,12 @@ Fixpoint icall (Q : quirks) (lim : option Z) (E : env) (fuel : nat) (t : task) (
 
 (* Template::render *)
 Definition render (Q : quirks) (lim : option Z) (fuel : nat) (E : env) (main : name) (ctx : frame) : outcome (list Z) :=
-  match assoc main E with
-  | None => Err E_TemplateNotFound
-  | Some top =>
+  match find_tmpl E main with
+  | Err c => Err c
+  | Panic => Panic
+  | OutOfGas => OutOfGas
+  | Ok None => Err E_TemplateNotFound
+  | Ok (Some top) =>
       if depth_ok lim 0 1 then
         match icall Q lim E fuel (TTemplate None top)
                 (mkIst (prepare (blocks_of top)) [] [Some []] (mkVenv ctx [[]]) 0) with
